@@ -80,6 +80,24 @@ func c16Run(x *core.Ctx) {
 		}
 		c := core.NewCase("limits", "grammar", g, "src", text)
 		x.Do(c, func() { c16Check(x, c) })
+		if i%7 == 3 {
+			// deeply nested value literals: every nesting level costs tokens, nothing else
+			depth := 3 + r.Intn(28)
+			open, cls := "[", "]"
+			if r.Chance(1, 3) {
+				open, cls = "{k:", "}"
+			}
+			lit := strings.Repeat(open, depth) + "1" + strings.Repeat(cls, depth)
+			var txt, gr string
+			if r.Bool() {
+				gr, txt = "query", "{ a(b: "+lit+") }"
+			} else {
+				gr, txt = "schema", "type T { f(a: X = "+lit+" @d(x: "+lit+")): Int }"
+			}
+			cd := core.NewCase("limits", "grammar", gr, "src", txt)
+			x.Do(cd, func() { c16Check(x, cd) })
+			x.Count("deep_literal_documents")
+		}
 		if i%5 == 0 {
 			// multi-source schema
 			k := 2 + r.Intn(3)
